@@ -64,3 +64,26 @@ func TestCompressionRoundTrip(t *testing.T) {
 		t.Fatalf("%+v %v", p, err)
 	}
 }
+
+// a name may end in a pointer to an earlier root terminator (the empty suffix)
+func TestRootPointer(t *testing.T) {
+	m := &Message{ID: 1, Questions: []Question{{Name{[]byte("a")}, 1, 1}, {Name{[]byte("b")}, 1, 1}, {Name{}, 1, 1}}}
+	w, st := EncodeOpt(m, func(n int) int { return n - 1 }, true)
+	// header(12) 01 'a' 00 (root at 14) type class | 01 'b' C0 0E type class | C0 0E type class
+	want, _ := hex.DecodeString("000100000003000000000000" + "01610000010001" + "0162c00e00010001" + "c00e00010001")
+	if !bytes.Equal(w, want) {
+		t.Fatalf("%x", w)
+	}
+	if st.Pointers != 2 || st.RootPointers != 2 || st.RootAfter != 1 || st.MaxTarget != 14 {
+		t.Fatalf("%+v", st)
+	}
+	p, err := Parse(w)
+	if err != nil || len(p.Questions) != 3 || !reflect.DeepEqual(p.Questions[1].Name, Name{[]byte("b")}) || len(p.Questions[2].Name) != 0 {
+		t.Fatalf("%+v %v", p, err)
+	}
+	// without the option nothing changes for existing callers
+	w2, n := Encode(m, func(n int) int { return n - 1 })
+	if n != 0 || len(w2) != 12+7+7+5 {
+		t.Fatalf("%d %x", n, w2)
+	}
+}
